@@ -19,6 +19,7 @@ def c17(run):
     r_file.run_restore_key(run, P)
     r_file.run_copy_through(run, P)
     r_file.run_no_remove(run, P)
+    r_file.run_raw_packet(run, P)
     run.min_instances('R-FILE-MODE', 14)
     run.min_instances('R-PERSIST', 6)
     run.assumptions = ASSUME_COMMON + ["fopen mode strings are literals (a non-literal mode is counted and not judged)"]
@@ -133,6 +134,8 @@ def c01(run):
     r_fixup.run_stale(run, P, only=_codec_funcs(P))
     r_fixup.run_pairing(run, P)
     r_fixup.run_atomic(run, P)
+    r_fixup.run_maxopt(run, P)
+    r_fixup.run_rebase(run, P)
     from rules import r_stalecopy
     r_stalecopy.run_scalar(run, P)       # no stale copy of the running option number across an appending call
     run.min_instances('R-CODEC-TAB', 30)
@@ -149,6 +152,7 @@ def c03(run):
     from rules import r_codec, r_width, r_parsegate
     P = run.prog('rel')
     r_width.run_b(run, P)
+    r_width.run_d(run, P)
     r_codec.run(run, P)
     r_codec.run_toklen(run, P)
     r_codec.run_tokext(run, P)
@@ -176,6 +180,8 @@ def c04(run):
     r_fixup.run_stale(run, P, only=_codec_funcs(P))
     r_fixup.run_pairing(run, P)
     r_fixup.run_atomic(run, P)
+    r_fixup.run_maxopt(run, P)
+    r_fixup.run_rebase(run, P)
     from rules import r_stalecopy
     r_stalecopy.run_scalar(run, P)
     from rules import r_codec
@@ -223,6 +229,7 @@ def c16(run):
     r_uriclass.run_hexcase(run, P)
     from rules import r_sizefill
     r_sizefill.run(run, P, units=('coap_uri.c',))
+    r_sizefill.run_separator(run, P, units=('coap_uri.c',))
     uri_funcs = set(f['name'] for f in P.lib_funcs() if f['unit'] == 'coap_uri.c')
     r_allocnull.run(run, P, only=uri_funcs)
     run.min_instances('R-LEN-READ', 12)
@@ -409,6 +416,7 @@ def c14(run):
     r_oscrole.run(run, P)
     r_oscsplit.run_flag_reach(run, P)
     r_oscsplit.run_match_acc(run, P)
+    r_oscsplit.run_outer_discard(run, P)
     from rules import r_oscflags
     r_oscflags.run(run, P)
     from rules import r_osccbor
@@ -451,6 +459,7 @@ def c02(run):
     r_writecap.run(run, P)
     from rules import r_sizefill
     r_sizefill.run(run, P)
+    r_sizefill.run_separator(run, P)
     from rules import r_pairargs
     r_pairargs.run(run, P)
     run.min_instances('R-RANGE', 12)
@@ -502,6 +511,7 @@ def c11(run):
     r_observe.run_rst(run, P)
     r_observe.run_dirty(run, P)
     r_observe.run_delete_key(run, P)
+    r_observe.run_delete_all(run, P)
     run.assumptions = ASSUME_COMMON + ["freshness / ordering of Observe values, 'the last state is eventually notified', NSTART back-pressure and every deregistration route other than "
                                        "the Reset with a matching queue node are NOT decided; 'the session stays alive while it has observers' is the holder rule of C12"]
     return run.finish(
